@@ -690,9 +690,14 @@ func H15c() {
 	hb := vParam("hb15", 1)
 	ctx := context.Background()
 	ntx := vLen(0, vParam("n15c", 2))
+	dl := vParam("dl15c", 2)
 	st := &hState{}
+	// every stored transaction commits to the hash of a payload of dl arbitrary bytes
+	var payloads [][]byte
 	for i := 0; i < ntx; i++ {
-		tx := &hTx{ref: hHash(hb), payloadHash: hHash(32), data: []byte{byte(i)}}
+		pl := vBytes(dl)
+		payloads = append(payloads, pl)
+		tx := &hTx{ref: hHash(hb), payloadHash: hash.SHA256Sum(pl), data: []byte{byte(i)}}
 		tx.ref[31] = byte(i + 1)
 		if vChoice(2) == 1 {
 			tx.pal = [][]byte{{byte(i)}}
@@ -719,7 +724,11 @@ func H15c() {
 	ref := hHash(hb)
 	ref[31] = vU8()
 	shape := vChoice(4)
-	data := vBytes(vLen(0, vParam("dl15c", 2)))
+	data := vBytes(vLen(0, dl))
+	// sha256 is collision free on the inputs at hand (the engine models it as an uninterpreted function)
+	for _, pl := range payloads {
+		vAssume(string(data) == string(pl) || hash.SHA256Sum(data) != hash.SHA256Sum(pl))
+	}
 	msg := &TransactionPayload{ConversationID: vBytes(1), TransactionRef: hRefBytes(ref, shape), Data: data}
 	err := p.handleTransactionPayload(ctx, conn, &Envelope{Message: &Envelope_TransactionPayload{TransactionPayload: msg}})
 
@@ -772,7 +781,7 @@ func H15c() {
 
 func H15c_twin() {
 	ctx := context.Background()
-	tx := &hTx{ref: hHash(1), payloadHash: hHash(32)}
+	tx := &hTx{ref: hHash(1), payloadHash: hash.SHA256Sum(vBytes(1))}
 	tx.ref[31] = 1
 	st := &hState{txs: []*hTx{tx}}
 	p := &protocol{state: st, ctx: ctx, privatePayloadReceiver: &hNotifier{}}
